@@ -209,7 +209,12 @@ def families():
             insts.append({"kind": "hand", "ncomps": base, "lengths": lengths, "calls": [[b, n]], "backends": B3 if (b + n) % 2 == 0 or not quick else B3[:1]})
     insts += [{"kind": "hand", "ncomps": base, "lengths": lengths, "calls": [[0, 4], [2, 3]], "backends": B3},
               {"kind": "hand", "ncomps": base, "lengths": lengths, "calls": [[1, 1], [1, 4]], "backends": B3[:2]},
-              {"kind": "hand", "ncomps": [2, 3, 1], "lengths": lengths[:3], "calls": [[2, 2], [0, 1]], "backends": B3[:2]}]
+              {"kind": "hand", "ncomps": [2, 3, 1], "lengths": lengths[:3], "calls": [[2, 2], [0, 1]], "backends": B3},
+              # sequences that return to a total compartment count the cell has had before, with a different distribution
+              # over the branches (anything cached per size must not be reused), and back to the original layout
+              {"kind": "hand", "ncomps": base, "lengths": lengths, "calls": [[1, 1], [3, 4]], "backends": B3},
+              {"kind": "hand", "ncomps": base, "lengths": lengths, "calls": [[0, 4], [1, 1]], "backends": B3},
+              {"kind": "hand", "ncomps": base, "lengths": lengths, "calls": [[1, 5], [1, 3]], "backends": B3[::2]}]
     # SWC: read with n0 then set_ncomp(n) on every branch == read with n
     files = [("spindle", 4), ("morph_minimal.swc", None), ("morph_single_point_soma.swc", None)] + ([] if quick else [("morph_250.swc", None), ("morph_soma_both_ends.swc", None)])
     for f, nb in files:
